@@ -159,7 +159,10 @@ func goTags(level string) string {
 }
 
 // pkgDir is the directory (relative to the module root) that holds the Go package of file i at a level.
-func pkgBase(level string) string { return "l" + strings.TrimSuffix(level, "+protoopaque") + "/gen" }
+func pkgBase(level string) string { return lvDir(level) + "/gen" }
+
+// lvDir is the directory of a level inside a scratch module (main program + gen/).
+func lvDir(level string) string { return "l" + strings.ReplaceAll(level, "+protoopaque", "po") }
 
 // assign gives file i the Go package <module>/l<level>/gen/p<i> (one package per file).
 func assign(files []*descriptorpb.FileDescriptorProto, level string) {
@@ -411,7 +414,6 @@ func main() { c41run.Main() }
 // writeLevel writes the generated packages of one level and the main program that links them into
 // the module at dir. keep selects the schema files whose packages are linked (nil: all).
 func writeLevel(dir string, g *generated, level string, keep map[int]bool) error {
-	lv := strings.TrimSuffix(level, "+protoopaque")
 	for n, src := range g.out {
 		if keep != nil && !keep[g.pkgOf[n]] {
 			continue
@@ -430,7 +432,7 @@ func writeLevel(dir string, g *generated, level string, keep map[int]bool) error
 			fmt.Fprintf(&imps, "\t_ %q\n", gencode.GoImportPathOf(g.files[i]))
 		}
 	}
-	mdir := filepath.Join(dir, "l"+lv)
+	mdir := filepath.Join(dir, lvDir(level))
 	if err := os.MkdirAll(mdir, 0o755); err != nil {
 		return err
 	}
@@ -470,13 +472,13 @@ func goBuild(dir string, lvls []string) ([]byte, error) {
 	os.MkdirAll(bin, 0o755)
 	args = append(args, "-o", bin+"/")
 	for _, l := range lvls {
-		args = append(args, "./l"+strings.TrimSuffix(l, "+protoopaque"))
+		args = append(args, "./"+lvDir(l))
 	}
 	return runGo(dir, args...)
 }
 
 func binPath(dir, level string) string {
-	return filepath.Join(dir, "bin"+goTags(level), "l"+strings.TrimSuffix(level, "+protoopaque"))
+	return filepath.Join(dir, "bin"+goTags(level), lvDir(level))
 }
 
 // ---------------------------------------------------------------------------------------------
